@@ -138,7 +138,88 @@ func descrNormalForm(d []byte) string {
 	return ""
 }
 
-func c15EndToEnd(ctx *Ctx, r *Rng) {}
+// c15EndToEnd: a description written bare and in parentheses, in every place a description may stand and in front
+// of every directive that may follow it, gives the same catalog; its value is the normal form of the text.
+func c15EndToEnd(ctx *Ctx, r *Rng) {
+	type host struct {
+		name      string
+		open      string   // lines before the Description (its parent and earlier siblings)
+		ind       string   // indentation of the Description line
+		followers []string // what may come after the description (complete lines, "" = end of file)
+		tail      string   // closes the document so that it is accepted
+		path      []string // where the description is in the catalog
+	}
+	top := []string{"", "TYPE @t9\n{}\n", "ENUM @e9\n[1]\n", "SERVER @s9\n  BaseUrl \"http://x\"\n", "TAG @g9\n", "URL /u9\n  GET\n    200 any\n",
+		"GET /m9\n  200 any\n", "POST /m9\n  200 any\n", "PUT /m9\n  200 any\n", "PATCH /m9\n  200 any\n", "DELETE /m9\n  200 any\n",
+		"MACRO @m9\n  TYPE @t8\n  {}\n", "INFO\n  Title \"late\"\n"}
+	hosts := []host{
+		{"INFO", "INFO\n", "  ", append([]string{"  Title \"T\"\n", "  Version 1\n"}, top[:12]...), "", []string{"info", "description"}},
+		{"TAG", "TAG @g\n", "  ", top, "", []string{"tags", "@g", "description"}},
+		{"GET", "TAG @g\nGET /a\n", "  ", append([]string{"  Tags @g\n  200 any\n", "  Query\n  {}\n  200 any\n", "  Request any\n  200 any\n", "  200 any\n", "  404 empty\n"}, top[1:12]...), "", []string{"interactions", "http GET /a", "description"}},
+		{"Method", "TAG @g\nURL /r\n  Protocol json-rpc-2.0\n  Method foo\n", "    ", append([]string{"    Tags @g\n    Params\n    {}\n", "    Params\n    {}\n", "    Result\n    {}\n", "  Method bar\n    Params\n    {}\n"}, top[1:12]...), "", []string{"interactions", "json-rpc-2.0 foo /r", "description"}},
+	}
+	texts := []string{"one line", "two\nlines", "first\n  indented more\nback", "with # hash\nand (parens)", "  spaced  \n\n  after a blank line", "Ends with a word like Tags\nor GET in the text"}
+	n := ctx.Budget(400, 20000)
+	cases := 0
+	for i := 0; i < n && len(ctx.Violations) < 10; i++ {
+		h := hosts[r.Intn(len(hosts))]
+		f := h.followers[r.Intn(len(h.followers))]
+		t := texts[r.Intn(len(texts))]
+		var body strings.Builder
+		for _, l := range strings.Split(t, "\n") {
+			if strings.TrimSpace(l) == "" {
+				body.WriteString("\n")
+			} else {
+				body.WriteString(h.ind + "  " + l + "\n")
+			}
+		}
+		// methods need a response when the follower does not bring one
+		tail := ""
+		if h.name == "GET" && !strings.Contains(f, "  200 any") && !strings.Contains(f, "  404 empty") {
+			tail = "GET /z\n  200 any\n"
+			f = "  200 any\n" + f
+		}
+		if h.name == "Method" && !strings.Contains(f, "Params") && !strings.Contains(f, "Result") {
+			f = "    Params\n    {}\n" + f
+		}
+		bare := "JSIGHT 0.3\n" + h.open + h.ind + "Description\n" + body.String() + f + tail
+		paren := "JSIGHT 0.3\n" + h.open + h.ind + "Description\n" + h.ind + "(\n" + body.String() + h.ind + ")\n" + f + tail
+		rb := RunProject(SingleFile([]byte(bare)), false)
+		rp := RunProject(SingleFile([]byte(paren)), false)
+		cases++
+		ctx.Cov.Count([]byte(bare), strings.Contains(t, "\n"))
+		ctx.Cov.Hit("description under " + h.name)
+		in := projectInput(SingleFile([]byte(bare)))
+		in["op"] = "doc"
+		in["parenthesised"] = paren
+		if rb.Panic != "" || rp.Panic != "" {
+			continue
+		}
+		if rb.Accepted() != rp.Accepted() || !bytes.Equal(rb.JSON, rp.JSON) {
+			what := fmt.Sprintf("bare: %s; in parentheses: %s", rb.Verdict(), rp.Verdict())
+			if rb.Accepted() && rp.Accepted() {
+				what = "the catalogs differ: " + firstDiff(rb.JSON, rp.JSON)
+			}
+			ctx.Violate(Violation{Kind: "wrong-output", Site: "description", What: "a description written bare and in parentheses gives different results (" + h.name + "): " + what,
+				Input: in, Observed: rb.Verdict(), Expected: rp.Verdict(), Signature: "descr-spelling"})
+			continue
+		}
+		if !rb.Accepted() {
+			ctx.Violate(Violation{Kind: "wrong-output", Site: "description", What: "a well-formed document with a description is rejected: " + rb.Verdict(), Input: in, Signature: "descr-doc-rejected"})
+			continue
+		}
+		doc, _, err := ParseOJSON(rb.JSON)
+		if err != nil {
+			continue
+		}
+		want, _ := specDescription([]byte(body.String()))
+		if got := doc.Path(h.path...).Str(); got != string(want) {
+			ctx.Violate(Violation{Kind: "wrong-output", Site: "description", What: fmt.Sprintf("description under %s is %q, the normal form of the text is %q", h.name, got, want),
+				Input: in, Observed: got, Expected: string(want), Signature: "descr-value"})
+		}
+	}
+	ctx.Cov.Component("descriptions bare vs in parentheses in every host and before every follower (specification on the implementation)", cases, len(ctx.Violations), "")
+}
 
 // specDescription: the normalised description text as C15 states it (written from the statement, not from the code).
 // ok=false when the parenthesised spelling is malformed (the implementation reports an error there).
